@@ -69,7 +69,9 @@ AssessClauses(p, ev) ==
       ELSE IF ev.status = "ok" THEN
              F("assess.value", r.err = "none" /\ ~(Close(ev.w, Score(r)) /\ (p.k = "maskediterate" \/ NormV(ev.subt.ret) = NormV(r.ret))))
              \cup F("missing", p.k = "static" /\ PureStatic(p) /\ r.err = "missing")
-      ELSE IF ev.status = "raised:MissingAddress" THEN F("missing", r.err # "missing")
+      \* (a switch traces every branch on the supplied map, so outside the static language proper a MissingAddress
+      \*  may come from a branch that is not selected: both directions are demanded for pure static programs only)
+      ELSE IF ev.status = "raised:MissingAddress" THEN F("missing", PureStatic(p) /\ r.err # "missing")
       ELSE F("assess.run", r.err = "none")
 
 \* C08: tagging unchanged arguments UnknownChange instead of NoChange changes nothing, unless that taints a switch index
